@@ -10,13 +10,19 @@ PROP = dict(
                        "Comdex.C20.table_spot_liquidity", "Comdex.C20.table_spot_market",
                        "Comdex.C20.store_coverage_full", "Comdex.C20.import_faithful_full", "Comdex.C20.import_total_full", "Comdex.C20.import_accepts_full", "Comdex.C20.validate_keys_match_store_keys", "Comdex.C20.validate_keys_pinned", "Comdex.C20.derived_sourced_full",
                        "Comdex.C20.counters_exact_full", "Comdex.C20.fields_used_full",
+                       "Comdex.C20.export_helpers_copy_ids_faithfully", "Comdex.C20.export_helpers_copy_fields_by_name", "Comdex.C20.copies_pinned",
+                       "Comdex.C20.migrate_fresh_id", "Comdex.C20.migrate_shared_counterexample", "Comdex.C20.migrate_shared_id_partial",
                        "Comdex.C20.knownGaps_are_gaps", "Comdex.C20.suspectedGaps_are_gaps", "Comdex.C20.allowList_are_gaps",
                        "Comdex.C20.benign_counters", "Comdex.C20.counter_counterexample", "Comdex.C20.store_counterexample"],
-    harness_tests=["TestC20"],
+    harness_tests=["TestC20", "TestC20Migrations"],
+    # (no `monitors` key: the monitor names are generated per module / prefix / operation — store_roundtrip:<module>.<prefix>,
+    #  counter_roundtrip:<module>.<counter>.<rule>, continuation_equal:<op>, custody_roundtrip, import_accepts_export:<module>,
+    #  migration_keeps:<module>.<prefix>, migration_continuation:<op>, migration_runs:<migrator> — every MON line of the two tests counts)
     trusted_base=[KERNEL_TB, HARNESS_TB,
-                  "extract/genesis (go/ast only, ~1500 lines): attributes every store access of x/<m>/keeper to a prefix of "
+                  "extract/genesis (go/ast only, ~2000 lines): attributes every store access of x/<m>/keeper to a prefix of "
                   "x/<m>/types/keys.go, follows calls from ExportGenesis / InitGenesis, classifies how InitGenesis restores each id "
-                  "counter. A wrong table makes a table obligation vacuous; mitigations: expected size and spot entries are pinned in "
+                  "counter, records which source expression feeds which field of every record constructed field by field on the "
+                  "export / import / migration path (names compared word-wise; ids passed as call arguments are not covered). A wrong table makes a table obligation vacuous; mitigations: expected size and spot entries are pinned in "
                   "Props/C20.lean, and the driver attributes every key of the REAL dumped stores to the table's prefixes and compares "
                   "the model's prediction (init . export by the extracted rules) with the re-imported store (DIFF)",
                   "Model/Genesis.lean treats record values as opaque and index stores as rebuilt by an abstract function; what a module's "
@@ -48,6 +54,8 @@ META = dict(
          "suspected gaps, which are themselves proved to be gaps. The real application is exported and re-imported; every module store "
          "is diffed key by key against the original and against the model's prediction, and a continuation workload compares outcomes, "
          "newly assigned ids and balances.",
-    note="The property is FALSE of the unchanged tree: 15 reproduced findings (G01-G15, 67 table entries) - see notes/C20.md. Trusted: "
-         "Lean kernel, the extractor, the harness fixtures (what is not built is not compared).",
+    note="The property is FALSE of the unchanged tree: 15 reproduced findings of the round trip (G01-G15) and 2 of the registered store "
+         "migrations (M1, M2) - see notes/C20.md. Trusted: Lean kernel, the extractor, the harness fixtures; the population report "
+         "(every exported list non-empty in some state, every pair of id fields different in some record, every message type accepted "
+         "by the continuation) turns holes of the fixture into BAD lines.",
 )
